@@ -21,7 +21,7 @@ func run(c *hlib.Ctx) {
 	}
 	kinds := []k{
 		{22, kindDiag3}, {5, kindDiagD3}, {9, kindClus3}, {14, kindRnm3}, {8, kindRn3}, {8, kindRep3},
-		{10, kindHier3}, {8, kindDiag2}, {5, kindRn2}, {4, kindRep2}, {7, kindHier2}, {16, kindHist3}, {8, kindHist2},
+		{10, kindHier3}, {8, kindDiag2}, {8, kindRn2}, {4, kindRep2}, {7, kindHier2}, {16, kindHist3}, {8, kindHist2},
 	}
 	total := 0
 	for _, x := range kinds {
